@@ -13,7 +13,7 @@ LEVEL_TEXT = ('Lean 4 theorems over tables regenerated from radiometry.py (decim
               'form a cocycle with identity and round trips (64 triples, any field of characteristic 0); the 27 flux triples as '
               'identities of rational functions in flux, wave, H, C; Spectrum.to preserves the trapezoid integral of a density and '
               'the values of a unitless spectrum, composes and round-trips; exitance = pi x radiance and Planck unit-independence between Gen.planckExitance and Gen.planckRadiance, each translated from its own source function, '
-              'with exp uninterpreted; flux-unit composition at spectrum level; of the multi-argument to() loop (model applyTo) only two fixed two-argument shapes are proved (applyTo_wave_last_wins: two wavelength units, the last wins; applyTo_refusal_keeps_prefix: wavelength unit then flux unit on a unitless spectrum) — longer argument lists are correspondence only; Spectrum.to\'s per-sample steps (which of wave/value is multiplied or divided by which factor, the metre detour of flux conversion) are regenerated as Gen.toStep* and the model is defined through them (bridge lemmas toWave_eq/toFlux_eq); a converted grid stays valid (toWave_valid). Partial: Wien peak and Stefan-Boltzmann total are checked numerically only.')
+              'with exp uninterpreted; flux-unit composition at spectrum level; the multi-argument to() loop (model applyTo) is proved for ARBITRARY argument lists: arguments compose and a refusal stops the call with the accepted prefix applied (applyTo_append), an unknown name is a ValueError wherever it stands (applyTo_unknown_stops), any number of wavelength units act as the last one (applyTo_waves_last_wins; two-argument instances applyTo_wave_last_wins, applyTo_refusal_keeps_prefix), wavelength and flux conversion commute (spectrum_to_wave_flux_commute), and on a density with non-zero wavelengths any list of valid unit names in any order equals ONE conversion to the last flux unit and ONE to the last wavelength unit named (applyTo_normal_form); Spectrum.to\'s per-sample steps (which of wave/value is multiplied or divided by which factor, the metre detour of flux conversion) are regenerated as Gen.toStep* and the model is defined through them (bridge lemmas toWave_eq/toFlux_eq); a converted grid stays valid (toWave_valid). Partial: Wien peak and Stefan-Boltzmann total are checked numerically only.')
 LEVEL_NOTE = ('what the theorems establish: CONSISTENCY of the conversion tables (cocycle, identity, round trips) and of Spectrum.to/Planck with them, plus absolute anchors — wave_factor_absolute (every wavelength factor = ratio of hand-written SI sizes), flux_factor_absolute (photlam→wlam = f·h·c/λ, wlam↔flam = 10³), constants_near_codata (H, C, K within 1e-6 of CODATA 2018), planck_closed_form (the translated functions are 2hc²/(λ⁵(e^{hc/λkT}−1)) and 2π·…); exp itself is uninterpreted, so the unit-independence theorems hold for any function of λ[m] and T in its place. partial: the clauses "peaks where Wien\'s law says" and "integrates to the Stefan-Boltzmann total" have no theorem '
               '(they need d/dλ of Planck\'s law and ∫x³/(eˣ−1)=π⁴/15); they are evaluated numerically on the implementation in every '
               'run. Trusted: tools/specs/c14.py (if-chain/literal reader), np.exp, np.trapz as Σ Δx·(y₀+y₁)/2.')
@@ -26,7 +26,7 @@ RULE = ('all 64 wavelength-unit triples and all 27 flux-unit triples (exhaustive
         'pairs; Wien/Stefan-Boltzmann numerics; vegaflux bands. distinct = (kind, units, sizes); non-trivial = units differ')
 TRUSTED = ['np.exp; np.trapz computes Σ (x[k+1]-x[k])·(y[k+1]+y[k])/2',
            'tools/specs/c14.py reads the if/elif dispatch chains and decimal literals of the unit classes']
-UNPROVEN = ['Spectrum.to(*units) for argument lists other than the two proved two-argument shapes (applyTo is compared with the implementation on 1..3 arguments)',
+UNPROVEN = ['Spectrum.to(*units): the theorems about arbitrary argument lists are about the model applyTo, which is compared with the implementation on 1..3 arguments only; a flux unit named for a UNITLESS spectrum inside a longer list is covered by applyTo_append + spectrum_to_flux_unitless_refused, not by the normal form',
             'Wien and Stefan-Boltzmann are numerical checks on the implementation (no theorem): the peak of planck_radiance is located on a 40001-point grid spanning ±2 % around b/T (resolution 1e-6) and must satisfy λ_max·T = hc/(k·4.965114231744276) to 2e-6, plus a coarse global search to 2e-3; ∫ planck_exitance dλ over 2e-8…2e-2 m on 400001 log-spaced points must equal σT⁴ = 2π⁵k⁴/(15h³c²)·T⁴ to 1e-5 (trapezoid error of that grid ≈ 1e-7, truncated tails < 1e-9 for 1500 K ≤ T ≤ 9000 K)',
             'preservation of the default (Simpson) integral by Spectrum.to — only the trapezoid integral is proved',
             'Planck radiance peaks where Wien\'s displacement law says (numerical check on the implementation only)',
